@@ -43,5 +43,7 @@ SEEDED = [
     ("C18-7", "C18-PART"),
     ("C18-8", "C18-PART"),
     ("C18-9", "C18-ERR"),
+    ("C18-10", "C18-ERR"),
+    ("C18-11", "C18-PART"),
 ]
 MUTANTS = list(MUTANTS) + [_P("seed-" + sid, _os.path.join(_SEEDS, sid, "patch.diff"), rule) for sid, rule in SEEDED if _os.path.exists(_os.path.join(_SEEDS, sid, "patch.diff"))]
